@@ -496,15 +496,30 @@ def replay_finding(f):
         finally:
             run.close()
     if f["id"] == "F-C12-udp-shared-framer":
-        run = L.Run("AioUdp", "socket", spec, {})
-        try:
-            run.open(0)
-            run.feed(0, bytes.fromhex(w["datagram1"]))
-            run.open(1)
-            o = run.feed(1, bytes.fromhex(w["probe"]))
-            return [x.hex() for x in o.out] != [w["expected"]]
-        finally:
-            run.close()
+        bad = []
+        for first in (w["datagram1"], w.get("short_datagram1", w["datagram1"])):
+            run = L.Run("AioUdp", "socket", spec, {})
+            try:
+                run.open(0)
+                run.feed(0, bytes.fromhex(first))
+                run.open(1)
+                o = run.feed(1, bytes.fromhex(w["probe"]))
+                bad.append([x.hex() for x in o.out] != [w["expected"]])
+            finally:
+                run.close()
+        return all(bad)
+    if f["id"] == "F-C12-short-chunk-raised":
+        still = False
+        for fe in ("SyncTcp", "AioTcp", "TwTcp"):
+            run = L.Run(fe, "socket", spec, {})
+            try:
+                run.open(0)
+                o1 = run.feed(0, bytes.fromhex(w["chunk"]))
+                o2 = run.feed(0, bytes.fromhex(w["rest"]))
+                still = still or o1.raised is not None or o1.escaped is not None or [x.hex() for x in o2.out] != [w["expected"]]
+            finally:
+                run.close()
+        return still
     if f["id"] == "F-C12-overlong-pdu-executed":
         run = L.Run("SyncTcp", "socket", spec, {})
         try:
